@@ -1,6 +1,6 @@
 """C20 - context-free transaction checks accept exactly the well-formed transactions (Mode I).
 
-C20.check   full product: 0..3 inputs with outpoints from a 6-element alphabet (so duplicates occur at every pair of
+C20.check   full product: 0..3 inputs with outpoints from a 7-element alphabet (so duplicates occur at every pair of
             positions and the exact null outpoint / its near misses at every position), single-input script lengths
             across the 2 / 100 coinbase bounds, 0..3 outputs with values from a 10-element alphabet around 0 and the
             coin's MAX_MONEY (so totals cross MAX_MONEY only cumulatively and only at the last output), 5 coin classes.
@@ -23,11 +23,12 @@ MAX_MONEY = {"BTC": 21000000 * COIN, "LTC": 21000000 * COIN, "BCH": 21000000 * C
 # LTC: the library's Litecoin class inherits Bitcoin's MAX_MONEY (21M coins); the property speaks of "per-coin MAX_MONEY
 # (Groestlcoin differs)" only, so 21M is what is demanded of the LTC class here.
 
-OUTPOINT_LABELS = ("A0", "A1", "B0", "NULL", "Z0", "Amax")
+OUTPOINT_LABELS = ("A0", "A1", "B0", "NULL", "Z0", "Amax", "A65536")
 
 
 def outpoint(label, A, B):
-    return {"A0": (A, 0), "A1": (A, 1), "B0": (B, 0), "NULL": ("00" * 32, U32), "Z0": ("00" * 32, 0), "Amax": (A, U32)}[label]
+    return {"A0": (A, 0), "A1": (A, 1), "B0": (B, 0), "NULL": ("00" * 32, U32), "Z0": ("00" * 32, 0), "Amax": (A, U32),
+            "A65536": (A, 65536)}[label]
 
 
 def value_alphabet(M):
@@ -83,7 +84,8 @@ def judge(code, R, label):
         return BAD("accept-vs-reject", "reject %s" % why, impl, clause="check:" + why[0])
     if verdict == "accept" and impl != "accept":
         return BAD("reject-vs-accept", "accept (no listed defect, total size %d)" % wire.total_size(R), impl,
-                   clause="null-outpoint-ignores-index" if z0 else "check:spurious-reject", site="check")
+                   clause="null-outpoint-ignores-index" if (z0 and ("prevout is null" in impl or "coinbase script" in impl)) else "check:spurious-reject",
+                   site="check")
     try:
         cb = P.is_coinbase()
         n += 1
@@ -109,18 +111,20 @@ def judge(code, R, label):
 
 class Checks(Driver):
     id = "C20.check"
-    rule = ("one state = one transaction of one coin class: every tuple of 0..3 outpoints over 6 labels x single-input script "
+    rule = ("one state = one transaction of one coin class: every tuple of 0..3 outpoints over 7 labels x single-input script "
             "lengths x every tuple of 0..3 output values over 10 boundary values; non-trivial = anything except a plain accept")
 
     def __init__(self, tier, seed):
         Driver.__init__(self, tier, seed)
         self.A = ("a1" * 32) if seed == 0 else seed_bytes(seed, "c20.A", 32).hex()
-        self.B = ("00" * 31 + "01") if seed == 0 else seed_bytes(seed, "c20.B", 32).hex()
+        # B differs from A in its last byte only, and from the all-zero hash in one byte (seed 0)
+        self.B = self.A[:62] + "%02x" % (int(self.A[62:], 16) ^ 0x80)
         self.nmax_in = 3
         self.nmax_out = 3
+        self.out4 = ("BTC", "GRS") if tier == "thorough" else ()
         self.script_lens = [0, 1, 2, 3, 99, 100, 101]
         self.coins = list(COINS)
-        self.bound = dict(inputs="0..3 outpoints, full product over %s" % (OUTPOINT_LABELS,), outputs="0..3 values, full product",
+        self.bound = dict(inputs="0..3 outpoints, full product over %s" % (OUTPOINT_LABELS,), outputs="0..3 values, full product" + (" (0..4 on BTC and GRS)" if self.out4 else ""),
                           values="0,1,M/2,M/2+1,M-1,M,M+1,2^63,2^64-1,-1 (M = MAX_MONEY of the coin)", single_input_script_lengths=self.script_lens,
                           witness="also with a witness on input 0 for <= 1 output", coins=self.coins, A=self.A, B=self.B)
 
@@ -135,7 +139,7 @@ class Checks(Driver):
     def execute(self, unit):
         alph = value_alphabet(MAX_MONEY[unit["coin"]])
         base = dict(unit, A=self.A, B=self.B)
-        for n in range(0, self.nmax_out + 1):
+        for n in range(0, self.nmax_out + (2 if unit["coin"] in self.out4 else 1)):
             for vals in itertools.product(alph, repeat=n):
                 for w in ((0, 1) if (n <= 1 and unit["ins"]) else (0,)):
                     case = dict(base, values=list(vals), witness=w)
